@@ -96,6 +96,11 @@ class NameToken(XPathToken):
     def __str__(self) -> str:
         return f'{self.value!r} name'
 
+    @property
+    def source(self) -> str:
+        # an unprefixed type name can have an occurrence indicator
+        return self.value + self.occurrence
+
     def nud(self) -> XPathToken:
         if self.parser.next_token.symbol == '::':
             msg = "axis '%s::' not found" % self.value
